@@ -8,17 +8,18 @@ from ..srules.core import SourceIndex
 def main(ctx):
     ctx.explanation = (
         "Engine S on the operator layer of tensor.py (values are delegated to evaluate, C01): dunder table (reflected methods "
-        "swap operands, op matches the method); the synthesised assignment templates are instantiated symbolically and parsed: "
-        "element-wise forms carry identical index lists on target and tensor operands, scalar operands `()`, the four @ strings "
-        "are the einsum of their order case up to index renaming; shape guards dominate the evaluation and raise ValueError; "
-        "format rules are evaluated as truth tables over {dense,compressed}^2; axis typing of the @ format rule with the "
+        "swap operands, op matches the method); the operator functions are evaluated abstractly "
+        "(vf/srules/symeval.py) over every combination of operand orders <= 3, level modes and mode orderings with symbolic "
+        "dimension sizes (branches on symbolic comparisons fork): the synthesised assignment must be the element-wise form "
+        "dimension by dimension / the einsum of the order case up to index renaming, ValueError must be the outcome on exactly the "
+        "paths where compared dimensions may differ and every contracted/paired dimension must have been compared, the output "
+        "format must follow the documented rule; axis typing of the @ format rule with the "
         "order <= 2 side condition."
     )
     ctx.assumptions = ["numerical values are C01's concern"]
     ix = SourceIndex(ctx.src)
     tensorapi.rule_dunders(ctx, ix)
-    tensorapi.rule_operator_templates(ctx, ix)
-    tensorapi.rule_format_tables(ctx, ix)
+    tensorapi.rule_operator_semantics(ctx, ix)
     ctx.rule("C11.axis-typing", "format rule of @ indexes modes in level space (order <= 2 exception checked)", min_instances=4)
     axis.run_axis(ctx, ix, "C11.axis-typing", modules=["tensora.tensor"], exceptions=tensorapi.axis_exceptions())
 
